@@ -509,6 +509,8 @@ def execute(kind, ntasks, actions, epilogue=False, path=0):
                         s.act([A_SETTLE])
                     s.act([A_SETTLE])
                 extra = s.snapshot()
+            if epilogue and s.sock is not None:
+                extra = extra + [[s.sent[t] - s.sock.wire.count(0x41 + t) for t in range(ntasks)]]
             return s.snaps, list(s.returns), extra
         finally:
             s.finish()
@@ -558,6 +560,13 @@ def run_impl(inp):
 _FOCUS = None     # set by extra(): restrict the failure search to the object kinds whose hypothesis broke
 
 
+def _sent_before_close(actions, t):
+    """every send of task t was started before the first close of the script (a send on a closed transport fails, rightly)"""
+    closes = [i for i, a in enumerate(actions) if a[0] in (A_CLOSE, A_ACLOSE)]
+    sends = [i for i, a in enumerate(actions) if a[0] == A_SEND and a[1] == t]
+    return bool(sends) and (not closes or max(sends) < min(closes))
+
+
 def oracle(inp):
     """The property on the implementation: (a) a send that returns normally has all its bytes taken by the kernel;
     (b,c,d) once the peer reads again / the connection is lost nobody stays suspended, a sender the script did not
@@ -570,7 +579,8 @@ def oracle(inp):
         if unsent > 0:
             return (f"{KIND_NAMES[kind]}: send of task {t} returned while {unsent} of its bytes were still in user space "
                     f"(get_write_buffer_size() = {bufsize})")
-    bufsize, dq, paused, statuses = final
+    bufsize, dq, paused, statuses = final[:4]
+    unsent_final = final[4] if len(final) > 4 else None
     cancelled = {a[1] for a in actions if a[0] == A_CANCEL}
     lost = any(a[0] in (A_LOST, A_CLOSE, A_ACLOSE) for a in actions)
     for t, st in enumerate(statuses):
@@ -580,6 +590,10 @@ def oracle(inp):
             return f"{KIND_NAMES[kind]}: task {t} cancelled although the script never cancelled it"
         if st in (12, 13) and not lost:
             return f"{KIND_NAMES[kind]}: task {t} failed with a connection error although the connection was never lost"
+        if st in (12, 13) and unsent_final is not None and unsent_final[t] == 0 and not any(a[0] == A_LOST for a in actions) \
+                and any(a[0] == A_READY for a in actions) and _sent_before_close(actions, t):
+            return (f"{KIND_NAMES[kind]}: task {t} failed with a connection error although the kernel took every byte it sent "
+                    f"(graceful close: the flush completed, the suspended sender had to be resumed)")
         if st == 14:
             return f"{KIND_NAMES[kind]}: task {t} raised an unexpected exception"
     if dq != 0 and deque_observable():
@@ -914,8 +928,26 @@ def limits_of(kind, path=0):
     return _LIMITS[(kind, path)]
 
 
+def limits_after_vectored_send(path=0):
+    """(high, low) of the live transport AFTER one send_all_from_iterable() that the kernel took entirely: the adapter may
+    touch the limits on that path (the F6 repair does): they must still be (0, 0) for every later send"""
+    key = ("after-iter", path)
+    if key not in _LIMITS:
+        with running() as loop:
+            s = Session(loop, K_SEND_ITER, 1, path)
+            try:
+                s.act([A_SEND, 0, 3, 3])
+                s.act([A_SETTLE])
+                low, high = s.transport.get_write_buffer_limits()
+                _LIMITS[key] = [high, low]
+            finally:
+                s.finish()
+    return _LIMITS[key]
+
+
 def _limits_facts():
-    return {"stream_limits_zero": all(limits_of(K_SEND_ALL, p) == [0, 0] for p in PATHS[K_SEND_ALL]),
+    return {"stream_limits_zero": all(limits_of(K_SEND_ALL, p) == [0, 0] and limits_after_vectored_send(p) == [0, 0]
+                                      for p in PATHS[K_SEND_ALL]),
             "dgram_endpoint_limits_zero": limits_of(K_DGRAM_EP) == [0, 0],
             "dgram_listener_limits_zero": limits_of(K_DGRAM_LISTENER) == [0, 0]}
 
@@ -981,10 +1013,16 @@ def extra(ctx):
             ok = h_pause(kind, path)
             report[KIND_NAMES[kind] + (" via " + PATH_NAMES[path] if len(PATHS[kind]) > 1 else "")] = \
                 dict(high=high, low=low, writelines_pauses=bool(wl), H_pause=ok)
+            after = ""
+            if kind in (K_SEND_ALL, K_SEND_ITER):
+                ah, al = limits_after_vectored_send(path)
+                report[KIND_NAMES[kind] + (" via " + PATH_NAMES[path] if len(PATHS[kind]) > 1 else "")]["after_vectored_send"] = \
+                    dict(high=ah, low=al)
+                after = f"; limits after one send_all_from_iterable on the same transport: (high={ah}, low={al})"
             if not ok and SIGNATURES.get(kind) not in known:
                 broken.add((kind, path))
                 ctx.problems.append(dict(kind="hypothesis", detail=f"H_pause does not hold for {KIND_NAMES[kind]} obtained through "
-                                         f"{PATH_NAMES[path]}: write buffer limits (high={high}, low={low}), writelines pauses: {bool(wl)}"))
+                                         f"{PATH_NAMES[path]}: write buffer limits (high={high}, low={low}), writelines pauses: {bool(wl)}" + after))
     # the configuration derived from the source (Gen/ParamsC20.v, used by the Props lemmas) must be the one observed
     try:
         sp = source_params()
@@ -1003,6 +1041,7 @@ def extra(ctx):
         report["source_params_provenance"] = dict(PROVENANCE)
     except Exception as exc:   # TranslateError is reported by the runner through params() already
         report["source_params"] = f"unavailable: {exc}"
+        broken = set()          # the H_pause verdicts above rest on a fallback: search every kind for a failing input
     if broken:
         _FOCUS = broken
     return dict(h_pause=report)
@@ -1151,6 +1190,8 @@ def _case(kind, ntasks, acts, tag, path=0):
 
 def h_pause(kind, path=0):
     high, low, wl = config_of(kind, path)
+    if kind in (K_SEND_ALL, K_SEND_ITER) and limits_after_vectored_send(path) != [0, 0]:
+        return False        # the limits do not survive a vectored send on the same connection
     return high == 0 and low == 0 and (wl == 1 or kind != K_SEND_ITER)
 
 
